@@ -328,6 +328,7 @@ func lifeDriver(a *Args) {
 		}
 	}
 	sigs = append(sigs, sigCase{"backend-list-returns", syscall.SIGINT, 2500, 700}, sigCase{"backend-list-returns", syscall.SIGTERM, 2500, 700})
+	sigs = append(sigs, sigCase{"backend-list-fails", syscall.SIGTERM, 2500, 700}, sigCase{"backend-list-fails", syscall.SIGINT, 1500, 900}, sigCase{"idle-list-fails", syscall.SIGTERM, 2000, 0})
 	// a signal while the agent still waits for its first healthy check (SIGTERM only: whether SIGINT is ignored
 	// before the handler exists depends on the disposition the process inherited)
 	sigs = append(sigs, sigCase{"before-healthy", syscall.SIGTERM, 0, 0}, sigCase{"before-healthy", syscall.SIGTERM, 1000, 0})
@@ -453,6 +454,8 @@ func signalScenario(res *hx.Result, place string, sig syscall.Signal, graceMs, l
 	fp := fakes.NewFakeProxy()
 	defer fp.Close()
 	fp.OnList = func(ids []string) { tr.Emit("ListAnswer", "ok", true, "t_us", us()) }
+	fp.OnListArrive = func() { tr.Emit("ListArrive", "t_us", us(), "k", 0) }
+	fp.OnListFail = func(kind string) { tr.Emit("ListAnswer", "ok", false, "t_us", us(), "kind", kind) }
 	first := true
 	var lmu sync.Mutex
 	fp.List = nil
@@ -505,14 +508,14 @@ func signalScenario(res *hx.Result, place string, sig syscall.Signal, graceMs, l
 		case <-fetched:
 		case <-time.After(10 * time.Second):
 		}
-	case "backend", "backend-list-returns":
+	case "backend", "backend-list-returns", "backend-list-fails":
 		fp.Push([]string{"req1"})
 		select {
 		case <-atBackend:
 		case <-time.After(10 * time.Second):
 		}
 		time.Sleep(20 * time.Millisecond)
-	case "idle":
+	case "idle", "idle-list-fails":
 		time.Sleep(100 * time.Millisecond)
 	}
 	sent := time.Now()
@@ -535,6 +538,14 @@ func signalScenario(res *hx.Result, place string, sig syscall.Signal, graceMs, l
 	if place == "listed" {
 		time.Sleep(50 * time.Millisecond)
 		close(release)
+	}
+	if place == "backend-list-fails" || place == "idle-list-fails" {
+		// the pending-list call that was in flight at the signal FAILS (and so would every later one): polling stops
+		// all the same once that call has returned - no further list call is started during the grace period
+		time.Sleep(60 * time.Millisecond)
+		for k := 0; k < 6; k++ {
+			fp.Push([]string{"!fail"})
+		}
 	}
 	if place == "backend-list-returns" {
 		// the pending-list call that was in flight at the signal returns (empty) while the request is
